@@ -28,6 +28,7 @@ ASSUMPTIONS = [
 ]
 
 DT = ["float64", "float32", "int64", "int32", "bool"]
+SHARED = set()     # keys of the current history whose member object is also stored elsewhere under another name
 
 
 def plan(tier):
@@ -90,7 +91,9 @@ def _check_state(res, label, dg, model, rows, scalar, steps):
         return False
     for key, m in model.items():
         obj = dg[key]
-        if obj.name != key:
+        if obj.name != key and key not in SHARED:
+            # (a member that was also stored in another group under another key carries that key as its name:
+            #  sharing objects between groups is supported, the name follows the last insertion)
             res.violate("name-lost", f"{label}: member {key!r} is named {obj.name!r}", steps=steps)
             return False
         if type(obj).__name__ != ("Array" if m.kind == "array" else "Vector"):
@@ -186,6 +189,8 @@ def run_case(case, ctx, res):
     scalar = False
     steps = []
     nonident = False
+    SHARED.clear()
+    other = osy.Datagroup()     # a second group that shares member objects with the first
     if not _check_state(res, "initial", dg, model, rows, scalar, steps):
         return
     nops = int(rng.integers(2, 13))
@@ -194,8 +199,25 @@ def run_case(case, ctx, res):
             break
         cur = len(rows)
         op = ["index", "index", "index", "sortkey", "sortlist", "insert", "replace", "bad", "update", "delete",
-              "pop"][int(rng.integers(0, 11))]
+              "pop", "share"][int(rng.integers(0, 12))]
         label = f"step {step} {op} after {steps}"
+        if op == "share":
+            # the same member object is also put into another group under another key (this renames it)
+            if not model:
+                continue
+            key = list(model)[int(rng.integers(0, len(model)))]
+            if len(other) and other.shape != dg[key].shape:
+                other = osy.Datagroup()
+            steps.append(f"share({key} as shared_{key})")
+            o = attempt(other.__setitem__, "shared_" + key, dg[key])
+            if not o.ok:
+                res.violate("raised-unexpectedly", f"{label}: storing a member in a second group {o.describe()}", steps=steps)
+                return
+            SHARED.add(key)
+            res.tag("shared-member")
+            if not _check_state(res, label, dg, model, rows, scalar, steps):
+                return
+            continue
         if op == "index":
             idx, desc, sel = _draw_index(osy, rng, cur)
             steps.append("index " + desc)
@@ -222,7 +244,8 @@ def run_case(case, ctx, res):
             if not _check_state(res, label + " (source afterwards)", dg, model, rows, False, steps):
                 return
             if rng.random() < 0.7:
-                dg, rows = new, newrows     # continue the history on the result
+                dg, rows = new, newrows     # continue the history on the result (fresh member objects)
+                SHARED.clear()
             else:
                 scalar = False
         elif op in ("sortkey", "sortlist"):
@@ -274,6 +297,7 @@ def run_case(case, ctx, res):
             if not np.array_equal(perm, rows):
                 nonident = True
             rows = perm
+            SHARED.clear()       # sorting stores new member objects, named after their keys
             if not _check_state(res, label, dg, model, rows, scalar, steps):
                 return
         elif op in ("insert", "replace", "update"):
